@@ -512,7 +512,7 @@ def eval_test(expr: ast.AST, env: dict, defs=None, _depth: int = 0):
                 return any(ts) if e.func.id == "any" else all(ts)
             raise Unknown("any/all")
         if isinstance(e, ast.Call):
-            fn = (dotted(e.func) or "").split(".")[-1] + "()"
+            fn = (e.func.attr if isinstance(e.func, ast.Attribute) else (dotted(e.func) or "")) + "()"
             if fn in env:
                 return env[fn]
             raise Unknown(fn)
